@@ -30,6 +30,7 @@ RULE += ' Round 9: the amplitude formula evaluated on the cluster waveform the f
 RULE += ' Round 10: coupling whitening matrices scaled by 4e-9 (off-diagonals far below 1e-8).'
 RULE += ' Round 11: whitening matrices that couple channels in one direction only (several shanks); a template whose first sample is NaN on every channel.'
 RULE += ' Round 12: amplitudes of the lowest id scaled by 1e12; single spikes with amplitude zero or below.'
+RULE += ' Round 13: datasets with as many spikes as templates.'
 EXHAUSTIVE = {'quick': False, 'thorough': False}
 FLOORS = {'quick': {'evaluations': 1400, 'distinct_nontrivial': 800},
           'thorough': {'evaluations': 15000, 'distinct_nontrivial': 8000}}
